@@ -1,11 +1,12 @@
 (* Correspondence checkers for C11: accept/reject + error kind of a template set, and the
    text/error outcome of rendering every template of an accepted set, model vs implementation.
-   The model is the one of the REPAIRED code for D10 (fixes/D10-*.patch): `fix_d10 := true`. *)
+   The model is the one of the REPAIRED code: fixes/D10-*.patch (`fix_d10`) and
+   fixes/D13-*.patch (`fix_d13`). *)
 From TeraV Require Import Model.Value Model.Registry.
 Close Scope Z_scope.
 
 Definition fix_d10 : bool := true.
-Definition fix_d13 : bool := false.
+Definition fix_d13 : bool := true.
 
 Definition mk_env (pre : list name) (known : list name) : env :=
   {| ev_prefixes := pre; ev_filters := known; ev_tests := known; ev_funcs := known;
